@@ -488,8 +488,12 @@ def reconstruct_family(fam, keys, F, dumps, runs):
             elif e is not None:
                 return False
         return True
+    def more(rs):
+        for r, d in dump_runs(rs).items():
+            dumps[r] = d
+            entries[r] = entry_list(fam, d)
     rec = dx.reconstruct("calibration/%s" % fam, runs, domains, known, matches,
-                         lambda r: all(e is None for e in entries[r]))
+                         lambda r: all(e is None for e in entries[r]), more=more)
     for q, arms in rec.items():
         F[q]["arms"] = arms
 
@@ -528,8 +532,9 @@ def generate():
                          "   The implementation (verif hooks, all %d entries of the family) was evaluated at %d candidate run numbers\n"
                          "   (every integer literal and integer constant of the calibration sources, each +-1, and 0, 1, u32::MAX-1,\n"
                          "   u32::MAX); at each one the parsed tables / the delay that reproduce the implementation's COMPLETE answer\n"
-                         "   were identified.  ASSUMPTION: the dispatch is constant between consecutive candidates; the differential\n"
-                         "   run (arm boundaries +-2 and a stride of runs) checks it.  A calibration triple needs baseline, gain and\n"
+                         "   were identified.  ASSUMPTION: the dispatch is constant between consecutive candidates with the same answer\n"
+                         "   (a change between two candidates is located by bisection); the differential run (arm boundaries +-2 and\n"
+                         "   a stride of runs) checks it.  A calibration triple needs baseline, gain and\n"
                          "   delay: where the implementation has no triple at all, a dispatch hidden behind another one's error\n"
                          "   cannot be observed and a reconstructed dispatch says None there. *)\n"
                          % (dx.FALLBACK_MARK, fam,
